@@ -574,6 +574,97 @@ func c12(r *core.Report) {
 		}
 	}
 
+	// ---- C12-CLOSE-REPEATABLE (after seed C12-s7): a second Close must return, not panic. Where a function on a
+	// Close path panics on the miss edge of a lookup in a table ("already closed"), nothing on that Close path
+	// may delete from that table: the first Close would make the second one take the panicking edge.
+	r.Rule("C12-CLOSE-REPEATABLE", "no function on a swarm's Close path deletes from a table whose lookup miss panics on that same path (a repeated Close returns)", 1)
+	{
+		type missPanic struct {
+			fn    *ssa.Function
+			field *types.Var
+			pos   token.Pos
+		}
+		missPanics := func(fn *ssa.Function) []missPanic {
+			var out []missPanic
+			for _, b := range fn.Blocks {
+				iff, ok := b.Instrs[len(b.Instrs)-1].(*ssa.If)
+				if !ok {
+					continue
+				}
+				cond := iff.Cond
+				missSucc := 1 // `ok` false edge
+				if u, isU := cond.(*ssa.UnOp); isU && u.Op == token.NOT {
+					cond, missSucc = u.X, 0
+				}
+				ex, isE := cond.(*ssa.Extract)
+				if !isE || ex.Index != 1 {
+					continue
+				}
+				lk, isL := ex.Tuple.(*ssa.Lookup)
+				if !isL || !lk.CommaOk {
+					continue
+				}
+				f, _ := core.FieldRead(lk.X)
+				if f == nil {
+					continue
+				}
+				// blocks entered only because of the miss (the direct target, and what it dominates when it has no other way in)
+				t := b.Succs[missSucc]
+				hasPanic := func(bb *ssa.BasicBlock) bool {
+					_, isP := bb.Instrs[len(bb.Instrs)-1].(*ssa.Panic)
+					return isP
+				}
+				found := hasPanic(t)
+				if !found && len(t.Preds) == 1 {
+					for _, bb := range fn.Blocks {
+						if t.Dominates(bb) && hasPanic(bb) {
+							found = true
+						}
+					}
+				}
+				if found {
+					out = append(out, missPanic{fn, f, iff.Pos()})
+				}
+			}
+			return out
+		}
+		n := 0
+		for _, root := range p.ModFuncs {
+			if root.Name() != "Close" || root.Signature.Recv() == nil || root.Signature.Params().Len() != 0 {
+				continue
+			}
+			reach := p.ReachableFuncs([]*ssa.Function{root}, cha)
+			var mps []missPanic
+			for fn := range reach {
+				if p.InModule(fn) && fn.Blocks != nil {
+					mps = append(mps, missPanics(fn)...)
+				}
+			}
+			if len(mps) == 0 {
+				continue
+			}
+			r.Analysed(root)
+			for _, mp := range mps {
+				n++
+				c := core.FnName(root) + " -> " + core.FnName(mp.fn) + " panic on miss in " + fieldOwnerName(p, mp.field)
+				bad := ""
+				for fn := range reach {
+					if !p.InModule(fn) || fn.Blocks == nil {
+						continue
+					}
+					for _, ci := range core.Calls(fn, func(ci ssa.CallInstruction) bool { return core.IsBuiltin(ci.Common(), "delete") }) {
+						if f, _ := core.FieldRead(ci.Common().Args[0]); core.SameField(f, mp.field) {
+							bad = core.FnName(fn) + " at " + p.Pos(ci.Pos())
+						}
+					}
+				}
+				r.Check(bad == "", "C12-CLOSE-REPEATABLE", c, p.Pos(mp.fn.Pos()), "nothing on this Close path deletes from the table, so the second Close finds the entry again and returns",
+					"the Close path deletes the entry ("+bad+") whose absence makes this same path panic: a repeated Close panics instead of returning")
+			}
+		}
+		_ = n
+	}
+
 	// ---- C12-CONN-TRACKED: Close can only shut down what the connection table holds. A connection the swarm
 	// dialed is therefore, on every path out of getConn, either in the table or closed; and a closing connection
 	// takes out only its own table entry (a connection that lost the race for an entry shares the winner's key).
